@@ -81,6 +81,9 @@ func runMulti(ch *child, cv conversation) (out outcome) {
 			}
 			conns[s.Conn] = m
 		}
+		if s.Kind == "dial" {
+			continue // the connection is opened ahead of time so that later writes leave back to back
+		}
 		subst := strings.NewReplacer("{base}", ch.base(), "{sess}", sess, "{cport}", fmt.Sprint(cport), "{cport1}", fmt.Sprint(cport+1),
 			"{cport2}", fmt.Sprint(cport+2), "{cport3}", fmt.Sprint(cport+3), "{cookie}", fmt.Sprintf("cookie%d", cv.ID))
 		cseq++
@@ -123,6 +126,51 @@ func runMulti(ch *child, cv conversation) (out outcome) {
 		m.in.mu.Unlock()
 	}
 	return
+}
+
+// tunnelConversations: HTTP-tunnel handshakes spread over several connections - one GET channel
+// and several POST channels carrying the same session cookie at (nearly) the same time, POST before
+// GET, duplicated GETs. Repeated, because the interesting interleavings are a matter of microseconds.
+func tunnelConversations(cfg childCfg) []conversation {
+	get := func(c int) step {
+		s := raw("GET /stream HTTP/1.1\r\nHost: x\r\nX-Sessioncookie: {cookie}\r\nAccept: application/x-rtsp-tunnelled\r\nPragma: no-cache\r\nCache-Control: no-cache\r\n\r\n")
+		s.Conn = c
+		return s
+	}
+	post := func(c int) step {
+		s := raw("POST /stream HTTP/1.1\r\nHost: x\r\nX-Sessioncookie: {cookie}\r\nContent-Type: application/x-rtsp-tunnelled\r\nPragma: no-cache\r\nContent-Length: 32767\r\n\r\nT1BUSU9OUyAqIFJUU1AvMS4wDQpDU2VxOiAxDQoNCg==")
+		s.Conn = c
+		return s
+	}
+	dial := func(c int) step { return step{Kind: "dial", Conn: c} }
+	var out []conversation
+	add := func(name string, st []step, n int) {
+		for k := 0; k < n; k++ {
+			out = append(out, conversation{Seed: "tunnel-multi", Multi: true, TruncateAt: -1, Steps: st, Muts: []string{"tunnel:" + name}})
+		}
+	}
+	for _, posts := range []int{2, 4, 8} {
+		var st []step
+		for c := 0; c <= posts; c++ {
+			st = append(st, dial(c))
+		}
+		g := get(0)
+		g.Wait = true
+		st = append(st, g)
+		for c := 1; c <= posts; c++ {
+			st = append(st, post(c))
+		}
+		add(fmt.Sprintf("get+%d-posts", posts), st, 10)
+		// the same without waiting for the answer to the GET
+		st2 := append([]step{}, st...)
+		st2[posts+1].Wait = false
+		add(fmt.Sprintf("get+%d-posts-nowait", posts), st2, 6)
+	}
+	add("post-before-get", []step{dial(0), dial(1), post(1), get(0)}, 4)
+	add("two-gets-one-post", []step{dial(0), dial(1), dial(2), get(0), get(1), post(2)}, 4)
+	add("two-gets-two-posts", []step{dial(0), dial(1), dial(2), dial(3), get(0), get(1), post(2), post(3)}, 4)
+	_ = cfg
+	return out
 }
 
 // linkedConversations is the deterministic multi-connection family: connection A creates a
